@@ -117,3 +117,27 @@ func VerifC04HardUntil(ttl time.Duration, hasCut bool, cut time.Duration) time.D
 	boundRequestToEntryLifetime(ctx, e)
 	return meta.CutUntil().Sub(base)
 }
+
+// VerifC04ProofMaxTTL reads the ceiling of the RFC 8198 proof index.
+func VerifC04ProofMaxTTL(c *Cache) time.Duration { return c.store.denialProofs.maxTTL }
+
+// VerifC04ProofExpiries reads the expiry of the SOA entry currently held for
+// zone and of the NSEC entry held for owner (zero when absent).
+func VerifC04ProofExpiries(c *Cache, zone, owner string) (soa, nsec time.Time) {
+	pc := c.store.denialProofs
+	pc.mu.RLock()
+	defer pc.mu.RUnlock()
+	zone, owner = dns.CanonicalName(zone), dns.CanonicalName(owner)
+	for id, e := range pc.byID {
+		if id.zone != zone || id.qclass != dns.ClassINET {
+			continue
+		}
+		switch {
+		case id.kind == denialProofSOA:
+			soa = e.expires
+		case id.kind == denialProofNSEC && id.owner == owner:
+			nsec = e.expires
+		}
+	}
+	return soa, nsec
+}
